@@ -102,6 +102,45 @@ def trade_record():
     return None
 
 
+def partial_then_executed():
+    """a partial fill notification followed by the final execution: the order must be listed once in its trade"""
+    from jesse.store import store
+    for side in ('buy', 'sell'):
+        w = session('futures', leverage=5)
+        w['positions']['BTC-USDT'].current_price = 100.0
+        o = _mk(side, 'LIMIT', 1.0, 100.0)
+        o.filled_qty = 0.4 if side == 'buy' else -0.4
+        o.execute_partially(silent=True)
+        o.execute(silent=True)
+        n = sum(1 for t in store.completed_trades.tempt_trades.values() for x in t.orders if x is o)
+        if n != 1:
+            return f'{side} order partially filled and then executed is listed {n} times in its trade (expected once)'
+    return None
+
+
+def resubmit_final():
+    """resubmit() on a final order: refused, nothing changes"""
+    from jesse.store import store
+    for first in ('execute', 'cancel'):
+        w = session('futures', leverage=5)
+        w['positions']['BTC-USDT'].current_price = 100.0
+        o = _mk('buy', 'LIMIT', 1.0, 100.0)
+        getattr(o, first)()
+        s1 = (o.status, o.id) + _snapshot(w)
+        try:
+            o.resubmit()
+        except Exception:
+            pass
+        s2 = (o.status, o.id) + _snapshot(w)
+        if s2 != s1:
+            return f'resubmit() after {first}() changed a final order: {s1} -> {s2} (status, id, balances, position, trades)'
+        o.execute()
+        s3 = (o.status, o.id) + _snapshot(w)
+        if s3 != s1:
+            return f'resubmit() then execute() after {first}() changed the account a second time: {s1} -> {s3}'
+    return None
+
+
 def pending():
     from jesse.store import store
     from jesse.exchanges import Sandbox
@@ -127,6 +166,10 @@ def replay(pl):
         d = lifecycle() or trade_record()
     elif ob.startswith('registry'):
         d = registry(rng)
+    elif ob.startswith('trade-record.partial'):
+        d = partial_then_executed()
+    elif ob.startswith('resubmit'):
+        d = resubmit_final()
     elif ob.startswith('trade-record'):
         d = trade_record()
     elif ob.startswith('pending') or ob.startswith('market-order'):
